@@ -404,21 +404,29 @@ impl Sched {
         )
     }
 
-    fn wake_expired(&mut self, include_bg: bool, count_useful: bool) {
+    /// returns the first foreground thread whose timed wait has just expired
+    fn wake_expired(&mut self, include_bg: bool, count_useful: bool) -> Option<usize> {
         let clock = self.clock;
-        for t in self.th.iter_mut() {
+        let mut woken = None;
+        for (i, t) in self.th.iter_mut().enumerate() {
             if let St::Blocked { deadline: Some(d), bg, .. } = t.st {
                 if d <= clock && (include_bg || !bg) {
                     t.st = St::Runnable;
                     t.notified = false;
                     if bg {
                         t.probed = true;
-                    } else if count_useful {
-                        self.useful += 1;
+                    } else {
+                        if count_useful {
+                            self.useful += 1;
+                        }
+                        if woken.is_none() {
+                            woken = Some(i);
+                        }
                     }
                 }
             }
         }
+        woken
     }
 
     /// choose the next thread to run among runnable ones, advancing virtual time if needed
@@ -607,7 +615,7 @@ fn point_inner(loc: &'static Location<'static>) -> bool {
     let tick = 100u64 << (s.consec / 64).min(14);
     s.clock += tick;
     s.tick_total += tick;
-    s.wake_expired(false, true);
+    let woken = s.wake_expired(false, true);
     *s.sites.entry((loc.file(), loc.line())).or_insert(0) += 1;
     if s.steps > s.max_steps {
         s.budget();
@@ -621,6 +629,22 @@ fn point_inner(loc: &'static Location<'static>) -> bool {
         s.progress_clock = s.clock;
     } else if s.steps - s.progress_steps > 50_000 && s.clock - s.progress_clock > 60_000_000_000 {
         s.livelock();
+    }
+    // in the fair tail (segments used up) a thread whose sleep or timed wait has just expired
+    // gets the processor at once, as after a timer interrupt: events that were placed at a
+    // point in time (a cancel 300 ns after its target entered an operation, a post at a
+    // waiter's deadline) happen there and not up to a quantum later
+    if let Some(w) = woken {
+        if s.seg_idx >= s.schedule.len() && w != me && s.th[w].st == St::Runnable {
+            s.run_left = s.quantum;
+            s.pending_stall = 0;
+            s.preempts += 1;
+            if s.psites.len() < 64 {
+                s.psites.push((loc.file(), loc.line()));
+            }
+            switch_to(g, me, w, true);
+            return true;
+        }
     }
     if s.run_left > 0 {
         s.run_left -= 1;
